@@ -342,3 +342,344 @@ Proof.
       apply geq_refl.
   - intros s' m v _ Hs'. unfold block_V0. cbv zeta. destruct (_ ++ _); cbn [snd V0 set_V0 set_Mu]; now rewrite set_nth_length.
 Qed.
+
+(* ---------------------------------------------------------------- the horseshoe precision steps *)
+Lemma tab_length {A} n (f : nat -> A) : length (tab n f) = n.
+Proof. unfold tab. now rewrite map_length, seq_length. Qed.
+
+Lemma map_as_tab {B} (f : Qc -> B) l : map f l = tab (length l) (fun i => f (vnth l i)).
+Proof.
+  unfold tab, vnth. rewrite <- (map_map (fun i => nth i l 0) f). f_equal.
+  symmetry. apply nth_ext with (d := 0) (d' := 0); [now rewrite map_length, seq_length|].
+  intros i Hi. rewrite map_length, seq_length in Hi.
+  rewrite (nth_indep _ 0 (nth 0 l 0)) by now rewrite map_length, seq_length.
+  rewrite (map_nth (fun i => nth i l 0)). rewrite seq_nth by exact Hi. reflexivity.
+Qed.
+
+Lemma zipw_tab {A B C} (f : A -> B -> C) n a b : zipw f (tab n a) (tab n b) = tab n (fun i => f (a i) (b i)).
+Proof. unfold tab. apply zipw_map. Qed.
+
+Lemma map_tab {A B} (f : A -> B) n h : map f (tab n h) = tab n (fun i => f (h i)).
+Proof. unfold tab. apply map_map. Qed.
+
+Lemma tab_ext {A} n (f h : nat -> A) : (forall i, (i < n)%nat -> f i = h i) -> tab n f = tab n h.
+Proof. intros H. unfold tab. apply map_ext_in. intros i Hi. apply H. apply in_seq in Hi. lia. Qed.
+
+Lemma vnth_tab n f i : (i < n)%nat -> vnth (tab n f) i = f i.
+Proof.
+  intros H. unfold vnth, tab. rewrite (nth_indep _ 0 (f O)) by now rewrite map_length, seq_length.
+  rewrite map_nth, seq_nth by exact H. reflexivity.
+Qed.
+
+Lemma zrange_tab {A} (f : Z -> A) n : map f (zrange (Z.of_nat n)) = tab n (fun i => f (Z.of_nat i)).
+Proof. rewrite zrange_of_nat. unfold tab. apply map_map. Qed.
+
+Lemma occ_bound a b : 1 + qofZ (Z.of_nat a) + qofZ (Z.of_nat b) = 1 + qnat (a + b).
+Proof. unfold qnat. rewrite Nat2Z.inj_add, qofZ_add. ring. Qed.
+
+Lemma clip_occ orc x a b :
+  np_clip_isq orc x (inv_sqrt (Sqrt (1 + qofZ (Z.of_nat a) + qofZ (Z.of_nat b)))) prec_hi = clipC orc (a + b) x.
+Proof. unfold np_clip_isq, clipC, clip_lo. cbn [inv_sqrt isq_value]. now rewrite occ_bound. Qed.
+
+Theorem src_prec_V0_step_is_model g d orc s : length (phi0 s) = c_ndd g -> length (V0 s) = c_ndd g ->
+  prog_eq (to_prog (src_prec_V0_step g d orc true s)) (step_prog g d orc BPrecV0 s).
+Proof.
+  intros Hphi HV. unfold src_prec_V0_step, prog_prec_V0. cbn [step_prog]. unfold prog_prec_V0. cbv zeta.
+  rewrite !src_n_obs_is_model.
+  unfold draw_gamma_vec, draw_gamma, fit_like, np_sdiv, np_sadd, np_smul, np_square, np_vadds, np_vadd, np_vmul,
+    np_clip_isq_each, qdiv, qadd, qmul, q1.
+  cbn [gbind to_prog phi0 V0 eta0 set_phi0 set_eta0].
+  rewrite !map_map, !map_length, Hphi.
+  rewrite (map_ext (fun x => / (1 / (1 + x))) (fun p => 1 + p)) by (intros; apply inv_one_div).
+  constructor. intros aux.
+  fold (tab (c_ndd g) (fun i => nth i (val_v aux) 0)).
+  rewrite (map_as_tab (fun x => half * eta0 s * qsq x) (V0 s)), HV, zipw_tab, !map_tab, tab_length.
+  rewrite (tab_ext _ _ (fun m => vnth (val_v aux) m + half * eta0 s * qsq (vnth (V0 s) m) + jitter))
+    by (intros; apply inv_one_div).
+  constructor. intros v.
+  fold (tab (c_ndd g) (fun i => nth i (val_v v) 0)).
+  rewrite !zrange_tab. repeat (first [rewrite zipw_tab | rewrite map_tab]).
+  rewrite (tab_ext _ _ (fun m => clipC orc (n_occ d m) (vnth (val_v v) m))) by (intros; apply clip_occ).
+  rewrite inv_one_div. constructor. intros aux2.
+  rewrite (map_as_tab qsq (V0 s)), HV, zipw_tab, qofZ_succ, inv_one_div.
+  change (qsum (tab ?n ?f)) with (sumn n f).
+  rewrite (sumn_ext _ (fun i => clipC orc (n_occ d i) (vnth (val_v v) i) * qsq (vnth (V0 s) i))
+                      (fun m => vnth (tab (c_ndd g) (fun m0 => clipC orc (n_occ d m0) (vnth (val_v v) m0))) m * qsq (vnth (V0 s) m)))
+    by (intros i Hi; now rewrite vnth_tab).
+  constructor. intros v2. rewrite clip_is_model. apply prog_eq_refl.
+Qed.
+
+(* matrices of a known shape, entry by entry *)
+Definition tab2 {A} (n D : nat) (F : nat -> nat -> A) : list (list A) := tab n (fun i => tab D (F i)).
+
+Lemma map_as_tab_gen {A B} (z : A) (f : A -> B) l : map f l = tab (length l) (fun i => f (nth i l z)).
+Proof.
+  unfold tab. rewrite <- (map_map (fun i => nth i l z) f). f_equal.
+  symmetry. apply nth_ext with (d := z) (d' := z); [now rewrite map_length, seq_length|].
+  intros i Hi. rewrite map_length, seq_length in Hi.
+  rewrite (nth_indep _ z (nth 0 l z)) by now rewrite map_length, seq_length.
+  rewrite (map_nth (fun i => nth i l z)). rewrite seq_nth by exact Hi. reflexivity.
+Qed.
+
+
+Lemma tab2_ext {A} n D (F G : nat -> nat -> A) :
+  (forall i k, (i < n)%nat -> (k < D)%nat -> F i k = G i k) -> tab2 n D F = tab2 n D G.
+Proof. intros H. unfold tab2. apply tab_ext. intros i Hi. apply tab_ext. intros k Hk. now apply H. Qed.
+
+Lemma map2_as_tab2 {B} (f : Qc -> B) M n D : shape2 M n D ->
+  map (map f) M = tab2 n D (fun i k => f (vnth (rnth M i) k)).
+Proof.
+  intros [Hn Hr]. rewrite (map_as_tab_gen [] (map f) M), Hn. unfold tab2. apply tab_ext. intros i Hi.
+  fold (rnth M i). rewrite (map_as_tab f), (Hr i Hi). reflexivity.
+Qed.
+
+Lemma map_tab2 {A B} (f : A -> B) n D F : map (map f) (tab2 n D F) = tab2 n D (fun i k => f (F i k)).
+Proof. unfold tab2. rewrite map_tab. apply tab_ext. intros i _. apply map_tab. Qed.
+
+Lemma zipw2_tab2 {A B C} (f : A -> B -> C) n D F G :
+  zipw (zipw f) (tab2 n D F) (tab2 n D G) = tab2 n D (fun i k => f (F i k) (G i k)).
+Proof. unfold tab2. rewrite zipw_tab. apply tab_ext. intros i _. apply zipw_tab. Qed.
+
+Lemma rowop_tab2 {A B C} (f : A -> B -> C) n D e F :
+  map (zipw f (tab D e)) (tab2 n D F) = tab2 n D (fun i k => f (e k) (F i k)).
+Proof. unfold tab2. rewrite map_tab. apply tab_ext. intros i _. apply zipw_tab. Qed.
+
+Lemma cliprows_tab2 {A B C} (c : A -> B -> C) n D F L :
+  zipw (fun row l => map (fun x => c x l) row) (tab2 n D F) (tab n L) = tab2 n D (fun i k => c (F i k) (L i)).
+Proof. unfold tab2. rewrite zipw_tab. apply tab_ext. intros i _. apply map_tab. Qed.
+
+Lemma colsum_tab2 n D F : np_colsum D (tab2 n D F) = tab D (fun k => sumn n (fun i => F i k)).
+Proof.
+  unfold np_colsum, tab2. apply tab_ext. intros k Hk. rewrite map_tab.
+  change (qsum (tab n ?f)) with (sumn n f). apply sumn_ext. intros i _. now apply vnth_tab.
+Qed.
+
+Lemma combine_tab {A B} n (a : nat -> A) (b : nat -> B) : combine (tab n a) (tab n b) = tab n (fun i => (a i, b i)).
+Proof. unfold tab. induction (seq 0 n) as [|i l IH]; cbn [map combine]; [reflexivity | now rewrite IH]. Qed.
+
+Lemma rnth_tab {A} n (f : nat -> list A) i : (i < n)%nat -> nth i (tab n f) [] = f i.
+Proof.
+  intros H. unfold tab. rewrite (nth_indep _ [] (f O)) by now rewrite map_length, seq_length.
+  rewrite map_nth, seq_nth by exact H. reflexivity.
+Qed.
+
+Lemma tab2_shape n D F : shape2 (tab2 n D F) n D.
+Proof. split; [apply tab_length|]. intros i Hi. unfold rnth, tab2. rewrite rnth_tab by exact Hi. apply tab_length. Qed.
+
+(* the drawn matrix read at the shape of the scale argument *)
+Lemma fit_like2_shape like m n D : shape2 like n D ->
+  fit_like2 like m = tab2 n D (fun i k => vnth (rnth m i) k).
+Proof.
+  intros [Hn Hr]. unfold fit_like2, fit_like. rewrite Hn.
+  rewrite <- (map_id like) at 1. rewrite (map_as_tab_gen [] (fun r => r) like), Hn.
+  fold (tab n (fun i => nth i m [])). rewrite combine_tab, map_tab. unfold tab2. apply tab_ext. intros i Hi.
+  cbn [fst snd]. fold (rnth like i). rewrite (Hr i Hi). reflexivity.
+Qed.
+
+(* the body of _prec_V2_step / _prec_V1_step as a function of the arrays it reads and of the final store *)
+Definition hs_src (g : cfg) (d : data) (orc : oracle) (V phi : list (list Qc)) (eta : list Qc)
+    (fin : list (list Qc) -> list Qc -> st) : gprog st :=
+  dop r1 <- draw_gamma_mat q1 (map (np_sdiv q1) (map (np_sadd q1) phi));
+  let bn := zipw np_vadd r1 (map (np_vmul (np_smul half eta)) (map np_square V)) in
+  dop r2 <- draw_gamma_mat q1 (map (np_sdiv q1) (map (fun r => np_vadds r jitter) bn));
+  let N1 := map (fun c => Z.of_nat (length (positions c (d_dd1 d)))) (zrange (Z.of_nat (c_ndd g))) in
+  let N2 := map (fun c => Z.of_nat (length (positions c (d_dd2 d)))) (zrange (Z.of_nat (c_ndd g))) in
+  let C := map inv_sqrt (map Sqrt (np_vadd (np_sadd q1 (map (fun c => qofZ c) N1)) (map (fun c => qofZ c) N2))) in
+  let ph := np_clip_isq_rows orc r2 C prec_hi in
+  let an := qmul half (qofZ (1 + Z.of_nat (c_ndd g))) in
+  dop r3 <- draw_gamma_vec q1 (np_sdiv q1 (np_sadd q1 eta));
+  let bn := np_vadd r3 (np_smul half (np_colsum (c_D g) (zipw np_vmul ph (map np_square V)))) in
+  dop r4 <- draw_gamma_vec an (np_sdiv q1 (np_vadds bn jitter));
+  dop r6 <- src_n_obs d;
+  let C := inv_sqrt (Sqrt (qofZ (1 + r6))) in
+  GRet (fin ph (np_clip_isq_all orc r4 C prec_hi)).
+
+Lemma src_prec_V2_step_body g d orc s :
+  src_prec_V2_step g d orc true s = hs_src g d orc (V2 s) (phi2 s) (eta2 s) (fun ph et => set_eta2 (set_phi2 s ph) et).
+Proof. reflexivity. Qed.
+
+Lemma src_prec_V1_step_body g d orc s :
+  src_prec_V1_step g d orc true s = hs_src g d orc (V1 s) (phi1 s) (eta1 s) (fun ph et => set_eta1 (set_phi1 s ph) et).
+Proof. reflexivity. Qed.
+
+Lemma shape2_map f M n D : shape2 M n D -> shape2 (map (map f) M) n D.
+Proof. intros H. rewrite (map2_as_tab2 f M n D H). apply tab2_shape. Qed.
+
+Lemma madds_tab2 n D F x : map (fun r => np_vadds r x) (tab2 n D F) = tab2 n D (fun i k => F i k + x).
+Proof. unfold tab2, np_vadds. rewrite map_tab. apply tab_ext. intros i _. apply map_tab. Qed.
+
+Lemma inv_scales_mat (M : list (list Qc)) : map (map Qcinv) (map (map (fun y => 1 / y)) M) = M.
+Proof.
+  rewrite map_map. rewrite <- (map_id M) at 2. apply map_ext. intros r. rewrite map_map.
+  rewrite <- (map_id r) at 2. apply map_ext. intros x. apply inv_one_div.
+Qed.
+
+Lemma inv_scales_vec (l : list Qc) : map Qcinv (map (fun y => 1 / y) l) = l.
+Proof. rewrite map_map. rewrite <- (map_id l) at 2. apply map_ext. intros x. apply inv_one_div. Qed.
+
+Lemma hs_src_is_model g d orc V phi eta fin :
+  shape2 V (c_ndd g) (c_D g) -> shape2 phi (c_ndd g) (c_D g) -> length eta = c_D g ->
+  prog_eq (to_prog (hs_src g d orc V phi eta fin)) (prog_prec_Vk g d orc V phi eta fin).
+Proof.
+  intros HV Hphi Heta. unfold hs_src, prog_prec_Vk. cbv zeta. rewrite src_n_obs_is_model.
+  unfold draw_gamma_mat, draw_gamma_vec, np_sdiv, np_sadd, np_smul, np_square, np_vadd, np_vmul, np_clip_isq_rows,
+    np_clip_isq_all, qmul, q1.
+  cbn [gbind to_prog].
+  (* first draw *)
+  assert (Hs1 : shape2 (map (map (fun y => 1 / y)) (map (map (fun y => 1 + y)) phi)) (c_ndd g) (c_D g))
+    by now apply shape2_map, shape2_map.
+  rewrite inv_scales_mat. constructor. intros aux.
+  rewrite (fit_like2_shape _ (val_m aux) _ _ Hs1).
+  (* second draw *)
+  rewrite (map2_as_tab2 qsq V _ _ HV), (map_as_tab (fun y => half * y) eta), Heta, rowop_tab2, zipw2_tab2, madds_tab2.
+  rewrite (map_tab2 (fun y => 1 / y)).
+  match goal with |- context [fit_like2 ?like _] => assert (Hs2 : shape2 like (c_ndd g) (c_D g)) by apply tab2_shape end.
+  rewrite (map_tab2 Qcinv).
+  rewrite (tab2_ext _ _ _ (fun m k => vnth (rnth (val_m aux) m) k + half * vnth eta k * qsq (vnth (rnth V m) k) + jitter))
+    by (intros; apply inv_one_div).
+  constructor. intros v.
+  rewrite (fit_like2_shape _ (val_m v) _ _ Hs2). clear Hs1 Hs2.
+  (* the clipped phi *)
+  rewrite !zrange_tab. repeat (first [rewrite zipw_tab | rewrite map_tab]). rewrite cliprows_tab2.
+  rewrite (tab2_ext _ _ _ (fun m k => clipC orc (n_occ d m) (vnth (rnth (val_m v) m) k))) by (intros; apply clip_occ).
+  (* third draw *)
+  rewrite inv_scales_vec. constructor. intros aux2.
+  unfold fit_like. rewrite !map_length, Heta. fold (tab (c_D g) (fun i => nth i (val_v aux2) 0)).
+  (* fourth draw *)
+  rewrite zipw2_tab2, colsum_tab2, map_tab, zipw_tab. unfold np_vadds. rewrite !map_tab, tab_length, qofZ_succ.
+  rewrite (tab_ext _ _ (fun k => vnth (val_v aux2) k + half * sumn (c_ndd g) (fun m =>
+             vnth (rnth (tab (c_ndd g) (fun m0 => tab (c_D g) (fun k0 => clipC orc (n_occ d m0) (vnth (rnth (val_m v) m0) k0)))) m) k
+             * qsq (vnth (rnth V m) k)) + jitter)).
+  2:{ intros k Hk. rewrite inv_one_div. f_equal. f_equal. f_equal. apply sumn_ext. intros m Hm.
+      unfold rnth at 1 3. rewrite rnth_tab by exact Hm. now rewrite vnth_tab. }
+  constructor. intros v2.
+  fold (tab (c_D g) (fun i => nth i (val_v v2) 0)). rewrite map_tab.
+  rewrite (tab_ext _ _ (fun k => clipC orc (nobs d) (vnth (val_v v2) k))) by (intros; apply clip_is_model).
+  apply prog_eq_refl.
+Qed.
+
+Theorem src_prec_V2_step_is_model g d orc s :
+  shape2 (V2 s) (c_ndd g) (c_D g) -> shape2 (phi2 s) (c_ndd g) (c_D g) -> length (eta2 s) = c_D g ->
+  prog_eq (to_prog (src_prec_V2_step g d orc true s)) (step_prog g d orc BPrecV2 s).
+Proof. intros. rewrite src_prec_V2_step_body. now apply hs_src_is_model. Qed.
+
+Theorem src_prec_V1_step_is_model g d orc s :
+  shape2 (V1 s) (c_ndd g) (c_D g) -> shape2 (phi1 s) (c_ndd g) (c_D g) -> length (eta1 s) = c_D g ->
+  prog_eq (to_prog (src_prec_V1_step g d orc true s)) (step_prog g d orc BPrecV1 s).
+Proof. intros. rewrite src_prec_V1_step_body. now apply hs_src_is_model. Qed.
+
+(* ---------------------------------------------------------------- _prec_W_step (multiplicative gamma process) *)
+Lemma cumprod_from_length acc l : length (cumprod_from acc l) = length l.
+Proof. revert acc. induction l as [|x l IH]; intros acc; cbn [cumprod_from length]; [reflexivity | now rewrite IH]. Qed.
+
+Lemma cumprod_length l : length (cumprod l) = length l.
+Proof. apply cumprod_from_length. Qed.
+
+Lemma seq_as_map k m : seq k m = map (fun j => (k + j)%nat) (seq 0 m).
+Proof.
+  revert k. induction m as [|m IH]; intros k; cbn [seq map]; [reflexivity|].
+  f_equal; [lia|]. rewrite (IH (S k)), (IH 1%nat), map_map. apply map_ext. intros; lia.
+Qed.
+
+Lemma skipn_seq' k : forall a m, skipn k (seq a m) = seq (a + k) (m - k).
+Proof.
+  induction k as [|k IH]; intros a m; [now rewrite Nat.add_0_r, Nat.sub_0_r|].
+  destruct m as [|m]; [reflexivity|]. cbn [seq skipn Nat.sub]. rewrite IH. f_equal. lia.
+Qed.
+
+Lemma skipn_tab {A} n (f : nat -> A) k : skipn k (tab n f) = tab (n - k) (fun j => f (k + j)%nat).
+Proof. unfold tab. rewrite skipn_map, skipn_seq'. cbn [Nat.add]. now rewrite seq_as_map, map_map. Qed.
+
+Lemma np_from_nat {A} (a : list A) k : np_from a (Z.of_nat k) = skipn k a.
+Proof. unfold np_from. now rewrite pyidx_of_nat. Qed.
+
+Lemma from_tab2 {A} n D (F : nat -> nat -> A) k :
+  map (fun r => np_from r (Z.of_nat k)) (tab2 n D F) = tab2 n (D - k) (fun c j => F c (k + j)%nat).
+Proof. unfold tab2. rewrite map_tab. apply tab_ext. intros c _. rewrite np_from_nat. apply skipn_tab. Qed.
+
+Lemma msum_core n m (e : nat -> Qc) F :
+  np_msum (map (np_vmul (tab m e)) (tab2 n m F)) = sumn n (fun c => sumn m (fun j => e j * F c j)).
+Proof.
+  unfold np_msum, np_vmul. rewrite rowop_tab2. unfold tab2. rewrite map_tab.
+  change (qsum (tab n ?f)) with (sumn n f). apply sumn_ext. intros c _. reflexivity.
+Qed.
+
+(* bn - 1 of component dd, as the code computes it (parssq = W**2 is computed once, before the draws) *)
+Lemma half_ss_is_model g s dd : shape2 (W s) (c_ncl g) (c_D g) -> length (gam s) = c_D g ->
+  half * np_msum (map (np_vmul (np_vdivs (np_from (cumprod (gam s)) (Z.of_nat dd)) (np_get q0 (gam s) (Z.of_nat dd))))
+                      (map (fun r => np_from r (Z.of_nat dd)) (map np_square (W s))))
+  = gam_half_ss g s dd.
+Proof.
+  intros HW Hg. unfold gam_half_ss, np_vdivs, np_square. cbv zeta.
+  rewrite (map2_as_tab2 qsq (W s) _ _ HW), from_tab2, np_from_nat, np_get_nat.
+  rewrite <- (map_id (cumprod (gam s))) at 1. rewrite (map_as_tab (fun x => x)), cumprod_length, Hg, skipn_tab, map_tab.
+  rewrite msum_core. reflexivity.
+Qed.
+
+Lemma half_ss_is_model_0 g s : shape2 (W s) (c_ncl g) (c_D g) -> length (gam s) = c_D g ->
+  half * np_msum (map (np_vmul (np_vdivs (cumprod (gam s)) (np_get q0 (gam s) 0))) (map np_square (W s)))
+  = gam_half_ss g s 0.
+Proof.
+  intros HW Hg. unfold gam_half_ss, np_vdivs, np_square. cbv zeta.
+  rewrite (map2_as_tab2 qsq (W s) _ _ HW). change 0%Z with (Z.of_nat 0). rewrite np_get_nat.
+  rewrite (map_as_tab (fun y => y / nth 0 (gam s) q0)), cumprod_length, Hg, msum_core, Nat.sub_0_r. reflexivity.
+Qed.
+
+Lemma gam_shape_0 g : qofZ 2 + half * qofZ (Z.of_nat (c_ncl g)) * qofZ (Z.of_nat (c_D g)) = gam_shape g 0.
+Proof. unfold gam_shape. now rewrite Nat.sub_0_r. Qed.
+
+Lemma gam_shape_S g dd : (1 <= dd <= c_D g)%nat ->
+  qofZ 3 + half * qofZ (Z.of_nat (c_ncl g)) * qofZ (Z.of_nat (c_D g) - Z.of_nat dd) = gam_shape g dd.
+Proof. intros H. unfold gam_shape, qnat. rewrite Nat2Z.inj_sub by lia. destruct dd; [lia | reflexivity]. Qed.
+
+(* the loop changes gam only: W stays the matrix [Wm] the squares were taken of *)
+Definition gam_inv (g : cfg) (Wm : list (list Qc)) (s : st) : Prop := W s = Wm /\ length (gam s) = c_D g.
+
+(* the loop over the components 1 .. D-1: one gamma draw each, the drawn value stored in gam[dd] *)
+Lemma gam_loop {T} g d orc Wm (f : T * st -> Z -> gprog (T * st)) (K : T * st -> gprog st) ds :
+  (forall t s dd, In dd ds -> gam_inv g Wm s -> exists t',
+     geq (f (t, s) (Z.of_nat dd))
+         (GDraw (DGamma (gam_shape g dd) (1 + gam_half_ss g s dd + jitter))
+                (fun v => GRet (t', set_gam s (set_nth dd (val_q v) (gam s)))))) ->
+  (forall t s, gam_inv g Wm s -> geq (K (t, s)) (GRet (set_tau s (map (clipC orc (nobs d)) (cumprod (gam s)))))) ->
+  forall t s, gam_inv g Wm s ->
+  prog_eq (to_prog (gbind (prog_fold f (map Z.of_nat ds) (t, s)) K)) (prog_gam g d orc ds s).
+Proof.
+  intros Hf HK. induction ds as [|dd ds IH]; intros t s Hs; cbn [map prog_fold prog_gam gbind].
+  - apply (to_prog_geq _ _ (HK t s Hs)).
+  - destruct (Hf t s dd (or_introl eq_refl) Hs) as [t' Ht'].
+    eapply prog_eq_trans.
+    { apply to_prog_geq. eapply geq_trans; [apply gbind_assoc|]. apply gbind_cong; [exact Ht' | intros x; apply geq_refl]. }
+    cbn [gbind to_prog]. constructor. intros v. apply IH.
+    + intros t0 s0 dd0 Hin. apply Hf. now right.
+    + destruct Hs as [HW Hg]. split; cbn [W gam set_gam]; [exact HW | now rewrite set_nth_length].
+Qed.
+
+Lemma zrange2_nat a b : zrange2 (Z.of_nat a) (Z.of_nat b) = map Z.of_nat (seq a (b - a)).
+Proof.
+  unfold zrange2. replace (Z.to_nat (Z.of_nat b - Z.of_nat a)) with (b - a)%nat by lia.
+  rewrite (seq_as_map a), map_map. apply map_ext. intros; lia.
+Qed.
+
+Theorem src_prec_W_step_is_model g d orc s :
+  shape2 (W s) (c_ncl g) (c_D g) -> length (gam s) = c_D g -> (0 < c_D g)%nat ->
+  prog_eq (to_prog (src_prec_W_step g d orc true s)) (step_prog g d orc BPrecW s).
+Proof.
+  intros HW Hg HD. cbn [step_prog]. unfold src_prec_W_step, prog_prec_W. cbv zeta.
+  destruct (c_D g) as [|D'] eqn:ED; [lia|]. cbn [seq prog_gam]. rewrite <- ED in *.
+  unfold draw_gamma at 1. unfold qadd, qmul, qdiv, q1. cbn [gbind gam set_gam W].
+  rewrite (half_ss_is_model_0 g) by assumption. rewrite gam_shape_0, inv_one_div.
+  change (qofZ 1) with 1. cbn [to_prog]. constructor. intros v.
+  change (zrange2 1 ?b) with (zrange2 (Z.of_nat 1) b). rewrite zrange2_nat. replace (c_D g - 1)%nat with D' by lia.
+  eapply prog_eq_trans.
+  { apply to_prog_geq. eapply geq_trans; [apply gbind_assoc|]. apply geq_refl. }
+  apply (gam_loop g d orc (W s)).
+  - intros [[tmp an] bn] s0 dd Hin [HW0 Hg0]. apply in_seq in Hin. eexists. cbv beta iota zeta.
+    unfold draw_gamma. cbn [gbind gam set_gam W]. rewrite <- HW0 in *. unfold qnum.
+    rewrite (half_ss_is_model g s0 dd HW Hg0), gam_shape_S by lia. rewrite inv_one_div.
+    change (qofZ 1) with 1. constructor. intros v0. rewrite np_store_nat. apply geq_refl.
+  - intros [[tmp an] bn] s0 _. cbv beta iota zeta. rewrite src_n_obs_is_model. cbn [gbind tau set_tau].
+    unfold np_clip_isq_all.
+    rewrite (map_ext _ (clipC orc (nobs d))) by (intros; apply clip_is_model). apply geq_refl.
+  - split; cbn [W gam set_gam]; [reflexivity|]. now rewrite set_nth_length.
+Qed.
